@@ -54,6 +54,11 @@ type Chain struct {
 	Committee  neotest.Signer // n/2+1 of n multisig (committee majority)
 	Payer      neotest.Signer // pays all fees with scope None so that it never witnesses anything
 
+	// FixedSysFee, when positive, is used as the system fee of every prepared
+	// transaction instead of a test run: needed when several transactions share
+	// a block and the state they will see differs from the one a test run sees.
+	FixedSysFee int64
+
 	nonce  uint32
 	userNo int
 	closed bool
@@ -292,10 +297,13 @@ func (c *Chain) signedTx(script []byte, signers []neotest.Signer, payer bool) *t
 		panic("chainkit: transaction without signers")
 	}
 	neotest.AddNetworkFee(c.T, c.BC, tx, all...)
-	o := c.testRun(tx, c.Now()+1)
-	// A margin keeps the outcome independent of small state differences when
-	// several transactions share a block.
-	tx.SystemFee = o.Gas + o.Gas/2 + 1_0000_0000
+	if c.FixedSysFee > 0 {
+		tx.SystemFee = c.FixedSysFee
+	} else {
+		o := c.testRun(tx, c.Now()+1)
+		// A margin keeps the outcome independent of small state differences.
+		tx.SystemFee = o.Gas + o.Gas/2 + 1_0000_0000
+	}
 	for _, s := range all {
 		if err := s.SignTx(c.BC.GetConfig().Magic, tx); err != nil {
 			panic(err)
